@@ -9,8 +9,10 @@ import (
 	"go/token"
 	"go/types"
 	"strings"
+	"sync"
 
 	"golang.org/x/tools/go/ssa"
+	"golang.org/x/tools/go/ssa/ssautil"
 )
 
 const (
@@ -106,6 +108,10 @@ func init() {
 		"vIteU16": func(i *interpreter, fr *frame, fn *ssa.Function, a []value) value { return itev(a[0], a[1], a[2]) },
 		"vIteU8":  func(i *interpreter, fr *frame, fn *ssa.Function, a []value) value { return itev(a[0], a[1], a[2]) },
 		"vIteBool": func(i *interpreter, fr *frame, fn *ssa.Function, a []value) value { return itev(a[0], a[1], a[2]) },
+		"vAnonU16x2": func(i *interpreter, fr *frame, fn *ssa.Function, a []value) value {
+			f, env := i.findAnon(a[0].(string), a[1].(string))
+			return callSSA(i, fr, 0, f, []value{a[2], a[3]}, env)
+		},
 		"vInEngine": func(i *interpreter, fr *frame, fn *ssa.Function, a []value) value { return true },
 		"vSkipGo": func(i *interpreter, fr *frame, fn *ssa.Function, a []value) value {
 			i.skipGo[a[0].(string)] = true
@@ -208,3 +214,103 @@ func snapshot(v value) value {
 }
 
 var _ = strings.Contains
+
+// findAnon locates the anonymous function of parent (full SSA name) whose
+// parameter names, joined by commas, are params, and resolves its captured
+// variables when they are themselves environment-free function literals of
+// the same parent.
+func (i *interpreter) findAnon(parent, params string) (*ssa.Function, []value) {
+	var pf *ssa.Function
+	for f := range i.allFuncs() {
+		if f.String() == parent {
+			pf = f
+			break
+		}
+	}
+	if pf == nil {
+		unsupported("vAnon: no function %s", parent)
+	}
+	var target *ssa.Function
+	for _, af := range pf.AnonFuncs {
+		var names []string
+		for _, p := range af.Params {
+			names = append(names, p.Name())
+		}
+		if strings.Join(names, ",") == params {
+			if target != nil {
+				unsupported("vAnon: %s has two function literals with parameters (%s)", parent, params)
+			}
+			target = af
+		}
+	}
+	if target == nil {
+		unsupported("vAnon: %s has no function literal with parameters (%s)", parent, params)
+	}
+	// find its MakeClosure to resolve the bindings
+	var env []value
+	if len(target.FreeVars) > 0 {
+		var mc *ssa.MakeClosure
+		for _, b := range pf.Blocks {
+			for _, in := range b.Instrs {
+				if m, ok := in.(*ssa.MakeClosure); ok && m.Fn == target {
+					mc = m
+				}
+			}
+		}
+		if mc == nil {
+			unsupported("vAnon: closure creation of %s not found", target)
+		}
+		for _, bnd := range mc.Bindings {
+			switch x := bnd.(type) {
+			case *ssa.Function:
+				env = append(env, x)
+			case *ssa.MakeClosure:
+				if len(x.Bindings) > 0 {
+					unsupported("vAnon: %s captures a closure with its own environment", target)
+				}
+				env = append(env, &closure{Fn: x.Fn.(*ssa.Function)})
+			case *ssa.Alloc:
+				// a variable captured by reference: resolvable when its only
+				// store in the parent is an environment-free function literal
+				var stored value
+				n := 0
+				for _, b := range pf.Blocks {
+					for _, in := range b.Instrs {
+						if st, ok := in.(*ssa.Store); ok && st.Addr == x {
+							n++
+							switch v := st.Val.(type) {
+							case *ssa.Function:
+								stored = v
+							case *ssa.MakeClosure:
+								if len(v.Bindings) == 0 {
+									stored = &closure{Fn: v.Fn.(*ssa.Function)}
+								}
+							}
+						}
+					}
+				}
+				if n != 1 || stored == nil {
+					unsupported("vAnon: %s captures variable %s, which is not a single environment-free function literal", target, x.Comment)
+				}
+				cell := new(value)
+				*cell = stored
+				env = append(env, cell)
+			default:
+				unsupported("vAnon: %s captures %T, which cannot be resolved outside its parent", target, bnd)
+			}
+		}
+	}
+	return target, env
+}
+
+var allFuncsCache map[*ssa.Function]bool
+var allFuncsMu sync.Mutex
+
+func (i *interpreter) allFuncs() map[*ssa.Function]bool {
+	allFuncsMu.Lock()
+	defer allFuncsMu.Unlock()
+	if allFuncsCache == nil {
+		allFuncsCache = ssautil.AllFunctions(i.prog)
+	}
+	return allFuncsCache
+}
